@@ -143,7 +143,7 @@ def si_histories(run, tier, rng):
                     rec.call("finalize")
                     inprog = False
                     continue
-                x = nprng.randint(-4, 5, size=op[1]).astype(np.float64)
+                x = common.relayout(nprng.randint(-4, 5, size=op[1]).astype(np.float64), common.LAYOUTS[op[1] % len(common.LAYOUTS)])
                 x.flags.writeable = False
                 keep = x.copy()
                 was = inprog
